@@ -156,6 +156,14 @@ def run(prog: Program, rep, tier: str) -> None:
         rep.check(not bad, "formula-pure", bad[0][0].qualname if bad else ci.qualname, U(bad[0][1])[:60] if bad else ci.name,
                   f"{ci.name} keeps no state besides its evaluation counter (a memo that ignores an argument would hand back a stale function value)",
                   bad[0][0].loc(bad[0][1]) if bad else "")
+    for q in ("pygradflow.implicit_func.StepFunc", "pygradflow.implicit_func.ImplicitFunc", "pygradflow.implicit_func.ScaledImplicitFunc",
+              "pygradflow.active_set.ActiveSet"):
+        ci = prog.cls(q)
+        bad = c10.class_is_immutable_after_init(prog, ci, {})
+        rep.check(not bad, "formula-pure", bad[0][0].qualname if bad else ci.qualname, U(bad[0][1])[:60] if bad else ci.name,
+                  f"{ci.name} is immutable after construction: value_at / deriv_at / compute_active_set are functions of their arguments and the constructor's "
+                  f"(problem, iterate, dt) only (a memo keyed on fewer arguments than the method takes would return a stale active set or value)",
+                  bad[0][0].loc(bad[0][1]) if bad else "")
     implicit_funcs(prog, rep)
     projection_shape(prog, rep)
     rep.pin("closed-form formulas compared", n + rep.extra.get("implicit_formulas", 0), 17)
